@@ -257,6 +257,9 @@ def lgammaI (x : Rat) : I :=
   | some e => e
   | none => lgammaStirling x
 
+/-- did the proved series enclosure of log Γ succeed at every listed argument (so that `lgammaI` is the proved one)? -/
+def lgammaOK (xs : List Rat) : Bool := xs.all fun x => (lgammaS x).isSome
+
 /-- log B(a,b) -/
 def lbetaI (a b : Rat) : I := I.sub (I.add (lgammaI a) (lgammaI b)) (lgammaI (a + b))
 
